@@ -18,7 +18,7 @@ from vlib import InfraError
 
 LEVEL = "model_checking"
 
-ACTIONS = ("StartSession", "Stop", "PreCheck", "Resolve", "Transfer", "After")
+ACTIONS = ("StartSession", "Stop", "PreCheck", "Resolve", "Transfer", "ObserveMidAttempt", "Post", "After")
 
 
 def run(ctx):
@@ -28,7 +28,7 @@ def run(ctx):
         if mc.coverage.get(a, (0, 0))[0] == 0:
             raise InfraError("vacuous model: action %s never fired" % a)
     note = {"cfg": "MC_%s.cfg" % size, "distinct": mc.distinct, "generated": mc.generated, "depth": mc.depth,
-            "invariants_holding": ["TypeOK", "FinalGood", "CountedPresent", "Converges", "GateSound"],
+            "invariants_holding": ["TypeOK", "FinalGood", "CountedPresent", "Converges", "GateSound", "FreshOffsetPerPeer"],
             "actions_fired": {k: v[0] for k, v in mc.coverage.items() if k in ACTIONS}}
     # negative controls: the model of the puller as it was written before the two repairs must be REJECTED by TLC
     # (otherwise the invariants have lost their power to see the defects the repairs removed)
@@ -61,12 +61,16 @@ def run(ctx):
     for need in ("trunc", "corrupt", "ok", "dial", "wronghash", "wrongsize", "notfound", "errack", "badoffset", "nopeer"):
         if not r["per_outcome"].get(need):
             raise InfraError("outcome %s was never served to the real puller" % need)
+    if not r["two_candidate_attempts"] or not r["second_candidate_fetches"] or not r["mid_attempt_observations"]:
+        raise InfraError("replay never offered two candidates / never reached the second one / never observed mid-attempt: %s"
+                         % {k: r[k] for k in ("two_candidate_attempts", "second_candidate_fetches", "mid_attempt_observations")})
     if not r["resumed_attempts"] or not r["promotions"] or not r["calm_runs"]:
         raise InfraError("replay never resumed / promoted / reached faults-stopped: %s" % {k: r[k] for k in ("resumed_attempts", "promotions", "calm_runs")})
     ctx.count(evaluations=r["attempts"], nontrivial_keys=r["nontrivial_keys"])
     ctx.traces_validated(r["runs"])
     ctx.note("replay", {k: r[k] for k in ("scenarios", "runs", "attempts", "sessions", "calm_runs", "per_outcome",
-                                          "resumed_attempts", "promotions", "scales_used", "wall_s")})
+                                          "resumed_attempts", "promotions", "two_candidate_attempts", "second_candidate_fetches",
+                                          "mid_attempt_observations", "scales_used", "wall_s")})
     ctx.note("exhaustive", True)
     ctx.note("rule", "every behaviour of Puller.tla with sizes %s units, <=%d scripted outcomes, RetryMaxAttempts=%d, every staging "
                      "file left over (absent, every good/bad prefix length, complete, oversize); unit = 1 byte, and a seed-chosen "
